@@ -117,7 +117,7 @@ def check_on(v, kind, toks, methods, rec, case=None):
             ys = V.cells(out)
             msg = None
             if method == "sort":
-                if str(out.dtype) != str(v.dtype):
+                if not V.same_dtype(out.dtype, v.dtype):
                     msg = f"dtype {out.dtype} != {v.dtype}"
                 elif sorted(map(repr, map(V.tok, ys))) != sorted(map(repr, map(V.tok, xs))):
                     msg = f"not a permutation: {ys} of {xs}"
@@ -150,7 +150,7 @@ def check_on(v, kind, toks, methods, rec, case=None):
                     if ys != exp:
                         msg = f"rank(ordinal) {ys} expected {exp} for {xs}"
             else:
-                if str(out.dtype) != str(v.dtype):
+                if not V.same_dtype(out.dtype, v.dtype):
                     msg = f"dtype {out.dtype} != {v.dtype}"
                 else:
                     seen, exp = [], []
